@@ -643,15 +643,15 @@ fn run_vec(ctx: &mut Ctx, prop: &'static str, quick: u32, thorough: u32) {
 }
 
 pub fn run_c12(ctx: &mut Ctx) {
-    run_vec(ctx, "C12", 80_000, 1_000_000);
+    run_vec(ctx, "C12", 160_000, 1_000_000);
     // chained form: straight-line programs over 512-bit registers on every back end of this build
     // (run once per build configuration, by the worker that is not pinned to one back end)
     if ctx.level == "host" || ctx.level.is_empty() {
         let known = ctx.known.clone();
-        let n = ctx.count(60_000, 1_500_000);
+        let n = ctx.count(150_000, 1_500_000);
         ctx.run("program", n, crate::props::vecprog::vprog_strategy(24), move |p, i| crate::props::vecprog::vprog_check("C12", &known, p, i));
     }
 }
 pub fn run_c13(ctx: &mut Ctx) {
-    run_vec(ctx, "C13", 100_000, 1_200_000);
+    run_vec(ctx, "C13", 220_000, 1_200_000);
 }
